@@ -8,21 +8,15 @@
 //!   C26 chain allow=… redir=<0|1> mode=<s|a> m= body= hdrs= u= hops=<E|R:status:loc:join|…>
 //!                                                            -> <result> n=<k> t=<req|req|…>
 //!   C26 ctx …same fields…                                    -> <result> n=<k>
+//!   C26 site kind=<ctx|tsa|remote> …same fields…             -> <ok|refusal class|err> n=<k>
 //! `chain` runs the stack of `Context::build_default_{sync,async}_resolver` (hook: same wrappers,
 //! scripted transport in place of the HTTP client); `ctx` runs the real `Context::resolver()`
-//! against a loopback server.
+//! against a loopback server; `site` issues one request at a request site of the SDK (Context
+//! resolver, the signer's default time-stamp request via `Builder::sign`, the settings-configured
+//! remote signer) under a configured allow-list against the same server.
 
 #[path = "../net_c26_c27.rs"]
 mod net;
-
-use std::{
-    io::{BufRead, BufReader, Write},
-    net::TcpListener,
-    sync::{
-        atomic::{AtomicBool, Ordering},
-        Arc, Mutex,
-    },
-};
 
 use c2pa::{
     http::{
@@ -83,12 +77,67 @@ fn one_match(run: &mut Run, rng: &mut Rng) {
             if m && !spec {
                 run.fail(idx, "match-outside-documented-rule", format!("pattern {pat:?} matches {uri} which the documented rule does not admit"));
             }
+            if m && spec && !strict_pattern_allows(&pat, uri.scheme_str(), uri.host(), port.as_ref().map(|p| p.as_str())) {
+                run.count("match_by_degenerate_case");
+            }
         }
         Err(e) => {
             let idx = run.case(req, "panic".to_string());
             run.fail(idx, "panic", format!("HostPattern::matches panicked: {e} (pattern {pat:?}, uri {uri})"));
         }
     }
+}
+
+/// The documented rule read strictly (non-empty label in place of `*`, non-empty suffix); used only
+/// to count matches that hold by the degenerate cases pinned in Props/C26.lean (`matches_exact`).
+fn strict_pattern_allows(pattern: &str, scheme: Option<&str>, host: Option<&str>, port: Option<&str>) -> bool {
+    if !spec_pattern_allows(pattern, scheme, host, port) {
+        return false;
+    }
+    let p = pattern.to_ascii_lowercase();
+    let rest = p.strip_prefix("https://").or_else(|| p.strip_prefix("http://")).unwrap_or(&p);
+    let phost = rest.rfind(':').map(|i| &rest[..i]).unwrap_or(rest);
+    match (phost.strip_prefix("*."), host) {
+        (Some(suffix), Some(h)) => !suffix.is_empty() && h.len() > suffix.len() + 1,
+        _ => true,
+    }
+}
+
+/// The degenerate / surprising pattern texts pinned as theorems in Props/C26.lean, replayed on
+/// `HostPattern::new` / `matches` (the model answers the same request lines).
+fn pinned_matches(run: &mut Run) {
+    let cases: [(&str, &str, bool); 11] = [
+        ("*.", "https://evil.com./", true),
+        ("*.", "https://evil.com/", false),
+        ("*.example.org", "https://.example.org/", true),
+        ("*.example.org", "https://example.org/", false),
+        ("*.example.org", "https://fakeexample.org/", false),
+        ("[::1]", "https://[::1]/", false),
+        ("[::1]", "https://[::1]:8080/", false),
+        ("[::1]:8080", "https://[::1]:8080/", true),
+        ("example.org", "https://example.org./", false),
+        ("example.org:", "https://example.org/", false),
+        ("HTTPS://Cdn.Example.net:8443", "https://cdn.example.NET:8443/x", true),
+    ];
+    let mut ok = true;
+    for (pat, uri, expect) in cases {
+        let Ok(u) = uri.parse::<Uri>() else {
+            run.notes.push(format!("pinned URI {uri} rejected by the http crate"));
+            ok = false;
+            continue;
+        };
+        let p = HostPattern::new(pat);
+        let lc = serde_json::to_value(&p).ok().and_then(|v| v.as_str().map(|s| s.to_string())).unwrap_or_default();
+        let m = p.matches(&u);
+        let req = format!("C26 match pat={} {}", hx(pat.as_bytes()), uri_fields(&u));
+        run.nontrivial(req.clone());
+        run.case(req, format!("{} lc={}", bool_str(m), hx(lc.as_bytes())));
+        if m != expect {
+            ok = false;
+            run.notes.push(format!("pinned fact changed: {pat:?} matches {uri} = {m}, pinned {expect}"));
+        }
+    }
+    run.obligations.insert("pinned-pattern-facts".to_string(), ok);
 }
 
 fn one_allowed(run: &mut Run, rng: &mut Rng) {
@@ -298,55 +347,6 @@ fn fixed_chains(run: &mut Run) {
 
 // ---------------------------------------------------------------- real Context over loopback
 
-struct Loopback {
-    port: u16,
-    hits: Arc<Mutex<Vec<String>>>,
-    stop: Arc<AtomicBool>,
-    handle: Option<std::thread::JoinHandle<()>>,
-}
-
-/// `/r/<hex location>` answers 302 with that Location, anything else 200.
-fn loopback() -> Option<Loopback> {
-    let listener = TcpListener::bind("127.0.0.1:0").ok()?;
-    let port = listener.local_addr().ok()?.port();
-    listener.set_nonblocking(true).ok()?;
-    let hits = Arc::new(Mutex::new(vec![]));
-    let stop = Arc::new(AtomicBool::new(false));
-    let (h2, s2) = (hits.clone(), stop.clone());
-    let handle = std::thread::spawn(move || {
-        while !s2.load(Ordering::SeqCst) {
-            match listener.accept() {
-                Ok((mut stream, _)) => {
-                    let _ = stream.set_nonblocking(false);
-                    let _ = stream.set_read_timeout(Some(std::time::Duration::from_secs(5)));
-                    let mut reader = BufReader::new(stream.try_clone().expect("clone"));
-                    let mut first = String::new();
-                    let _ = reader.read_line(&mut first);
-                    loop {
-                        let mut l = String::new();
-                        match reader.read_line(&mut l) {
-                            Ok(n) if n > 2 => continue,
-                            _ => break,
-                        }
-                    }
-                    let path = first.split_whitespace().nth(1).unwrap_or("/").to_string();
-                    h2.lock().unwrap().push(path.clone());
-                    let resp = match path.strip_prefix("/r/").and_then(|h| hex::decode(h).ok()) {
-                        Some(loc) => format!(
-                            "HTTP/1.1 302 Found\r\nLocation: {}\r\nContent-Length: 0\r\nConnection: close\r\n\r\n",
-                            String::from_utf8_lossy(&loc)
-                        ),
-                        None => "HTTP/1.1 200 OK\r\nContent-Length: 0\r\nConnection: close\r\n\r\n".to_string(),
-                    };
-                    let _ = stream.write_all(resp.as_bytes());
-                }
-                Err(_) => std::thread::sleep(std::time::Duration::from_millis(2)),
-            }
-        }
-    });
-    Some(Loopback { port, hits, stop, handle: Some(handle) })
-}
-
 /// The real `Context::resolver()` (built by `build_default_sync_resolver` from the settings)
 /// against a loopback server: allow-list and redirect follower must be stacked as in the model.
 /// Every case ends without leaving the machine: the hop after the loopback server is always
@@ -360,6 +360,7 @@ fn context_cases(run: &mut Run) {
     let me = format!("127.0.0.1:{}", lb.port);
     let base = format!("http://{me}");
     let red = |loc: &str| format!("{base}/r/{}", hex::encode(loc));
+    let ok200 = || vec![Reply::Resp { status: 200, locations: vec![] }];
     let cases: Vec<(Option<Vec<String>>, bool, String, Vec<Reply>)> = vec![
         (Some(vec![me.clone()]), true, format!("{base}/ok"), vec![Reply::Resp { status: 200, locations: vec![] }]),
         (Some(vec![me.clone()]), true, red("http://93.184.216.34/x"), vec![Reply::Resp { status: 302, locations: vec![b"http://93.184.216.34/x".to_vec()] }]),
@@ -371,6 +372,14 @@ fn context_cases(run: &mut Run) {
         (None, true, red(&format!("{base}/ok")), vec![Reply::Resp { status: 302, locations: vec![format!("{base}/ok").into_bytes()] }]),
         (None, false, red("https://outside.example.com/"), vec![Reply::Resp { status: 302, locations: vec![b"https://outside.example.com/".to_vec()] }]),
         (None, true, format!("{base}/ok"), vec![Reply::Resp { status: 200, locations: vec![] }]),
+        // the host `http::Uri::host()` reports is the host the client connects to: userinfo that
+        // looks like an allowed host does not get a request through, an allowed host behind
+        // userinfo is reached
+        (Some(vec!["example.org".to_string()]), true, format!("http://example.org@{me}/ok"), vec![]),
+        (Some(vec!["example.org".to_string()]), true, format!("http://example.org:443@{me}/ok"), vec![]),
+        (Some(vec![me.clone()]), true, format!("http://{me}@example.org/ok"), vec![]),
+        (Some(vec![me.clone()]), true, format!("http://user:pw@{me}/ok"), ok200()),
+        (Some(vec![format!("{me}")]), true, format!("http://{}/ok", me.replace("127.0.0.1", "127.0.0.1.")), vec![]),
     ];
     let mut all_ok = true;
     for (allow, redirects, uri, script) in cases {
@@ -390,10 +399,10 @@ fn context_cases(run: &mut Run) {
         let u: Uri = uri.parse().expect("uri");
         let c = ChainCase { allow: allow.clone(), redirects, method: "GET".into(), uri: u.clone(), headers: vec![], body: vec![], script, async_mode: false };
         let (uris, hops) = plan(&c.uri, &c.script);
-        lb.hits.lock().unwrap().clear();
+        lb.take();
         let request = Request::get(u).body(vec![]).expect("request");
         let class = result_class(&ctx.resolver().http_resolve(request));
-        let n = lb.hits.lock().unwrap().len();
+        let n = lb.take().len();
         let req = format!("C26 ctx {}", c.line(&hops));
         run.count(&format!("ctx_result_{}", class.split(':').next().unwrap()));
         run.nontrivial(req.clone());
@@ -411,15 +420,67 @@ fn context_cases(run: &mut Run) {
                 run.fail(idx, "disallowed-request-reached-transport", format!("Context resolver did not refuse the redirect to {} outside {v:?} (result {class})", uris[1]));
             }
         }
+        if let Some(v) = &allow {
+            if spec_allows(v, &c.uri) && n == 0 {
+                // admitted by the rule on `Uri::host()` but the client did not reach this listener
+                all_ok = false;
+                run.notes.push(format!("{} is admitted by {v:?} but no request arrived at the listener (result {class})", c.uri));
+            }
+        }
         if class == "unexpected" || class == "io" {
             all_ok = false;
         }
     }
-    lb.stop.store(true, Ordering::SeqCst);
-    if let Some(h) = lb.handle.take() {
-        let _ = h.join();
-    }
+    site_cases(run, &lb);
+    lb.shutdown();
     run.obligations.insert("context-stack-over-loopback".to_string(), all_ok);
+}
+
+/// "Every request": the request sites of the SDK that do not use the caller's Context
+/// (`Model/C26.lean`, `Site`), driven on the real code against the loopback listener under a
+/// configured allow-list. The property: no request arrives whose URI the list does not admit.
+fn site_cases(run: &mut Run, lb: &Loopback) {
+    let me = format!("127.0.0.1:{}", lb.port);
+    let lists: Vec<Option<Vec<String>>> = vec![Some(vec![]), Some(vec!["example.org".to_string()]), Some(vec![me.clone()]), None];
+    let mut ran = 0;
+    for kind in [SiteKind::Ctx, SiteKind::Tsa, SiteKind::Remote] {
+        for allow in &lists {
+            for (url, script) in [
+                (format!("{}/site", lb.base()), vec![Reply::Resp { status: 200, locations: vec![] }]),
+            ] {
+                let u: Uri = url.parse().expect("uri");
+                let c = ChainCase { allow: allow.clone(), redirects: true, method: "POST".into(), uri: u.clone(), headers: vec![], body: vec![], script, async_mode: false };
+                let (_, hops) = plan(&c.uri, &c.script);
+                let req = format!("C26 site kind={} {}", kind.tag(), c.line(&hops));
+                match run_site(lb, kind, allow, true, &url) {
+                    Ok((class, hits)) => {
+                        ran += 1;
+                        run.count(&format!("site_{}_{}", kind.tag(), class));
+                        run.nontrivial(req.clone());
+                        let idx = run.case(req, format!("{class} n={}", hits.len()));
+                        if let Some(v) = allow {
+                            for h in &hits {
+                                let outside = hit_uri(lb, h).map(|u| !spec_allows(v, &u)).unwrap_or(true);
+                                if outside {
+                                    let cls = match kind {
+                                        SiteKind::Ctx => "disallowed-request-reached-transport",
+                                        SiteKind::Tsa => "signer-timestamp-request-ignores-allow-list",
+                                        SiteKind::Remote => "remote-signer-ignores-allow-list",
+                                    };
+                                    run.fail(idx, cls, format!("with core.allowed_network_hosts = {v:?} the {} request `{h}` to {url} reached the listener", kind.tag()));
+                                    break;
+                                }
+                            }
+                        }
+                    }
+                    Err(e) => {
+                        run.notes.push(format!("site case {} not run: {e}", kind.tag()));
+                    }
+                }
+            }
+        }
+    }
+    run.obligations.insert("request-sites-driven-over-loopback".to_string(), ran == 12);
 }
 
 /// `build_default_{sync,async}_resolver` must still be the wrapper stack the hook mirrors.
@@ -453,6 +514,7 @@ fn source_obligations(run: &mut Run) {
 pub fn run(run: &mut Run, rng: &mut Rng) {
     run.rule = "patterns from a grammar (scheme? host|*.host port?, odd shapes) and URIs built near a pattern of the list (exact, sub-domain, sibling prefix, leading/trailing dot, case, userinfo, wrong/missing port, other scheme, authority/origin form); chains of 0–12 redirects through the default stack with Location values aimed at allowed / outside / internal hosts. Non-trivial: a match that holds, an allow-list decision on a redirect hop (≥2 transport calls or a refusal after the first hop), every restrict case with a list, every real-Context case; distinct by request text".to_string();
     source_obligations(run);
+    pinned_matches(run);
     fixed_chains(run);
     context_cases(run);
     let scale = if run.thorough() { 40 } else { 1 };
